@@ -30,6 +30,9 @@ type c08Case struct {
 	Adv      string `json:"adversarial,omitempty"`
 	StartSeq uint32 `json:"start_seq"`
 	Seed     uint64 `json:"seed"`
+	// SeqZero lets the transport hand out request sequence number 0 (wrap-around). Only used in plans
+	// without unsolicited events, where a sequence-0 datagram can only be the reply.
+	SeqZero bool `json:"allow_request_sequence_zero,omitempty"`
 }
 
 var c08Ops = []string{"getstatus", "getrules", "addrule", "deleterule", "deleterules", "set-pid", "set-ratelimit", "set-backloglimit", "set-enabled", "set-immutable", "set-failure", "set-backlogwait"}
@@ -84,6 +87,7 @@ func c08Exec(k *c08Case) *c08Outcome {
 	r := mon.NewRand(int64(k.Seed), 77)
 	out := &c08Outcome{}
 	sim := simkernel.New(k.StartSeq)
+	sim.AllowSeqZero = k.SeqZero
 	out.Sim = sim
 	nr := k.NRules
 	rules := make([][]byte, nr)
@@ -377,7 +381,7 @@ func c08Cases(c *mon.Ctx) []*c08Case {
 	add := func(k c08Case) {
 		id++
 		k.Seed = id
-		if k.StartSeq == 0 {
+		if k.StartSeq == 0 && !k.SeqZero {
 			k.StartSeq = seqs[int(id)%len(seqs)]
 		}
 		kk := k
@@ -434,6 +438,27 @@ func c08Cases(c *mon.Ctx) []*c08Case {
 			}
 		}
 	}
+	// request sequence number 0 (the counter wrapped around): without unsolicited events the sequence-0
+	// datagrams are the replies and must be taken as such
+	for _, op := range c08Ops {
+		nrs := []int{0}
+		if op == "getrules" || op == "deleterules" {
+			nrs = []int{0, 2}
+		}
+		for _, nr := range nrs {
+			for _, errno := range []int{0, int(syscall.EPERM), int(syscall.ENOENT)} {
+				for _, start := range []uint32{0, 0xFFFFFFFF, 0xFFFFFFFE} {
+					for _, b := range []int{0, 1, 3} {
+						bu := make([]int, c08Datagrams(op, nr))
+						if len(bu) > 0 {
+							bu[len(bu)/2] = b
+						}
+						add(c08Case{Op: op, NRules: nr, Errno: errno, StartSeq: start, SeqZero: true, Burst: bu})
+					}
+				}
+			}
+		}
+	}
 	// random: faults at every datagram
 	n := c.Pick(6000, 500000)
 	for i := 0; i < n; i++ {
@@ -475,7 +500,7 @@ func init() {
 		Rule: "cases = fault plans against a simulated kernel behind AuditClient.Netlink: op in {GetStatus, GetRules(0/1/3 rules), AddRule, DeleteRule, DeleteRules(0/1/3), the seven Set* in WaitForReply mode} x errno on the ACK in {0, EPERM, ENOENT, EEXIST, EINVAL, ENOMEM, EBUSY, 4095} (for DeleteRules: on the list request or on the i-th delete) x, at each datagram position in turn, every combination of 0-2 unsolicited sequence-0 events and a transient receive-failure burst in {none, 1xEINTR, 9xEINTR, 1xEAGAIN, 9 mixed} before the datagram, and additionally a 9-failure burst before EACH unsolicited event (failures on both sides of an event, each run <= 9); adversarial reply streams (ACK with a stale / future / random foreign sequence, ACK of a non-ERROR type, NLMSG_DONE as ACK, short ACK payload, stream ending early, data reply of the wrong type or with a foreign sequence); plus seeded random plans with faults at every datagram and request sequences near 1 and near 2^32. After each operation a further GetStatus overwrites the one reused receive buffer and must itself succeed with its own data. distinct_nontrivial = distinct plans with at least one fault (errno, unsolicited event, transient failure or adversarial stream).",
 		Assumptions: []string{
 			"the simulated kernel follows the real kernel's script: ACK (NLMSG_ERROR with errno and echoed header) first, then the AUDIT_GET reply or LIST_RULES x n + NLMSG_DONE, nothing after a refused request",
-			"request sequence number 0 combined with unsolicited events is not generated (a reply and an event are then indistinguishable by sequence)",
+			"request sequence number 0 (wrap-around) is generated only in plans without unsolicited events; combined with unsolicited events a reply and an event are indistinguishable by sequence, so that combination is not asserted",
 			"permanent receive errors and more than 9 transient failures in a row are outside the statement's fault model",
 		},
 		Phases: func(tier string) []mon.PhaseSpec {
